@@ -83,7 +83,7 @@ func runC11(c *Ctx) {
 	if c.Thorough() {
 		maxSize = 24
 	}
-	c.R.Rule = fmt.Sprintf("exhaustive: object sizes 0..%d × Range headers 'bytes=a-b','bytes=a-','bytes=-n' with a,b,n in -1..size+2, plus %d boundary/whitespace/multi-range/unit headers per size class, on every backend instance; a case is non-trivial when the model's answer is a 206 or a 416 and distinct by (size, header)", maxSize, len(c11Boundary))
+	c.R.Rule = fmt.Sprintf("exhaustive: object sizes 0..%d × Range headers 'bytes=a-b','bytes=a-','bytes=-n' with a,b,n in -1..size+2, plus %d boundary/whitespace/multi-range/unit headers per size class, on every backend instance; fs backends additionally: object files placed into the bucket's directory directly (no stored metadata), each read for the first time by a ranged GET; a case is non-trivial when the model's answer is a 206 or a 416 and distinct by (size, header)", maxSize, len(c11Boundary))
 	c.R.Exhaustive = true
 	for _, kind := range c.kinds(impl.AllKinds) {
 		inst, err := impl.New(kind, c.Tmp)
@@ -125,6 +125,29 @@ func runC11(c *Ctx) {
 				if size == 5 && kind == "mem" {
 					c.sample(fmt.Sprintf("size=5 Range=%q -> %s", h, obs))
 				}
+			}
+		}
+		// fs backends: object files that were put into the bucket's directory directly (no stored
+		// metadata: the backend computes the digest on first access); the ranged GET is the FIRST
+		// access to each file
+		if inst.IsFs() {
+			data := patternBytes(7)
+			n := 0
+			for _, h := range append(c11Headers(7, false), "", "bytes=0-", "bytes=3-", "bytes=-2", "bytes=1-1", "bytes=6-100", "bytes=7-") {
+				key := fmt.Sprintf("ext%d", n)
+				n++
+				if err := inst.WriteObjectFile(bucket, key, data); err != nil {
+					c.mismatch(Mismatch{Kind: "model", Backend: kind, Finger: "setup-extfile", Impl: err.Error()})
+					break
+				}
+				rq := impl.Req{Method: "GET", Path: "/" + bucket + "/" + key}
+				if h != "" {
+					rq.Header = map[string]string{"Range": h}
+				}
+				obs := rangeObs(inst.Do(rq))
+				line := fmt.Sprintf("getrange %s %s %s", fs, drv.HexS(h), drv.Hex(data))
+				c.check(kind, nil, line, obs, "range-first-access:"+classifyRange(h))
+				c.hist("first-access:" + classifyRange(h))
 			}
 		}
 		inst.Close()
